@@ -191,6 +191,7 @@ Proof.
   intros c s l s' Hpos I H.
   destruct l; unfold step in H; break_step H; inv_some H; boolfix.
   all: destruct I as [Ifl Ibuf Iitems Idl Ihist Ipre Iei Iep Ied Idh Ihp Ipos].
+  all: try match goal with E : pc _ = _ |- _ => rewrite E in Ipre, Iep, Ihp; cbn [pre_start in_window before_hub] in Ipre, Iep, Ihp end.
   all: try rewrite !emits_eq; try rewrite !emit_eq.
   all: repeat match goal with |- context [if closed ?s then _ else _] => destruct (closed s) eqn:? end.
   all: try match goal with |- SInv _ (check_pub _ _ _ _) => idtac | _ =>
@@ -218,7 +219,7 @@ Proof.
         intros ? ? Hc; rewrite E in Hc; inversion Hc; subst; eapply Ipos; reflexivity
     | E : pc _ = SReserved |- true = true -> _ =>
         intros _ ? ? ? Hd; exfalso;
-        assert (Hh : hub s = false) by (destruct (hub s) eqn:Eh; [specialize (Ihp Eh); rewrite E in Ihp; discriminate|reflexivity]);
+        assert (Hh : hub s = false) by (destruct (hub s) eqn:Eh; [specialize (Ihp eq_refl); discriminate|reflexivity]);
         assert (Hn : dl s <> DIdle) by congruence; specialize (Idh Hn); congruence
     | |- forall h, SHist (history_read _ _) = SHist h -> _ =>
         intros ? Hh; inversion Hh; subst; split;
@@ -237,3 +238,119 @@ Proof.
   - intros pos' pep' Hc. eapply check_pub_pos; eauto.
 Qed.
 
+
+(* ------------------------------------------------------------------ *)
+(* main invariant                                                       *)
+
+Record MInv (c : cfg) (s : st) : Prop := {
+  m_s : SInv c s;
+  m_res : forall r, pc_res (pc s) = Some r -> res_ok' c (g_log s) r;
+  m_srv : forall r, pc s = SSrvCommitted r -> g_pos s = r_pos r /\ c_var c = VServer;
+  m_recv : closed s = false -> RecvInv s;
+  m_spec : C01Spec (g_log s) (log s)
+}.
+
+Lemma last_in_or : forall (l : list N) d, last l d = d \/ In (last l d) l.
+Proof.
+  induction l as [|a l IH]; intros d; [left; reflexivity|].
+  right. destruct l as [|b l']; [left; reflexivity|].
+  change (In (last (b :: l') d) (a :: b :: l')). right.
+  destruct (IH d) as [E|E].
+  - cbn [last] in E. destruct l'; [left; cbn in *; congruence|].
+    (* last (b::n::l') d = d  : still an element or default; use IH on a fresh default *)
+    destruct (IH b) as [E'|E']; [|rewrite (last_cons_default _ _ d b); exact E'].
+    rewrite (last_cons_default _ _ d b). rewrite E'. left. reflexivity.
+  - exact E.
+Qed.
+
+Lemma recvinv_spec : forall s, RecvInv s -> C01Spec (g_log s) (log s).
+Proof.
+  intros s H p0 r Hr. destruct (H p0 r Hr) as (A & B & C & D & E & F).
+  split; [exact A|]. split; [|exact D].
+  intros o H1 H2.
+  assert (Hb : last r p0 <= bound s).
+  { destruct (last_in_or r p0) as [X|X]; [rewrite X; exact C|].
+    rewrite Forall_forall in B. apply B. exact X. }
+  destruct (E o H1) as [X|[X|X]]; [lia|left; exact X|right; exact X|].
+  exfalso. destruct (F o X) as (F1 & F2 & F3).
+  destruct (last_in_or r p0) as [Y|Y]; [lia|].
+  rewrite Forall_forall in F3. specialize (F3 _ Y). lia.
+Qed.
+
+Lemma recvinv_frame : forall s s',
+  RecvInv s -> recv (log s') = recv (log s) -> bound s' = bound s -> pend s' = pend s ->
+  incl (g_log s) (g_log s') -> RecvInv s'.
+Proof.
+  intros s s' H E1 E2 E3 Hi p0 r Hr. rewrite E1 in Hr.
+  destruct (H p0 r Hr) as (A & B & C & D & E & F). rewrite E2, E3.
+  split; [exact A|]. split; [exact B|]. split; [exact C|]. split; [|split].
+  - intros o Ho. eapply published_real_mono; eauto.
+  - intros o H1 H2. destruct (E o H1 H2) as [X|[X|X]]; auto.
+    right; left. eapply withheld_mono; eauto.
+  - exact F.
+Qed.
+
+Lemma recv_app_boring : forall l f, is_start f = false -> pub_offs [f] = [] -> recv (l ++ [f]) = recv l.
+Proof.
+  intros l f H1 H2. destruct (recv l) as [[p0 r]|] eqn:E.
+  - rewrite (recv_app_start _ _ _ [f] E), H2, app_nil_r. reflexivity.
+  - apply recv_none in E. rewrite (recv_app_nostart _ _ E), H1. reflexivity.
+Qed.
+
+Lemma res_ok_mono : forall c g g' r, incl g g' -> res_ok' c g r -> res_ok' c g' r.
+Proof.
+  intros c g g' r Hi ((A & B & C & D) & E & F). split; [|split; assumption].
+  split; [exact A|]. split; [|split; [exact C|]].
+  - intros q Hq. destruct (B q Hq). split; [assumption|]. eapply published_real_mono; eauto.
+  - intros o H1 H2. destruct (D o H1 H2); [left; assumption|right]. eapply withheld_mono; eauto.
+Qed.
+
+Lemma do_merge_flags : forall c h buf r, hist_wf c h -> do_merge c h buf = Some r ->
+  (r_recovered r = false -> r_pubs r = []) /\ (r_recovered r = true -> c_rec c = true).
+Proof.
+  intros c h buf r Hwf H. unfold do_merge in H.
+  destruct (negb (c_pos c)); [inv_some H; cbn; split; [reflexivity|discriminate]|].
+  destruct (merge _ _) as [[out maxo] ok]. destruct (negb ok); [discriminate|].
+  destruct (h_recovered h) eqn:Hr.
+  - destruct (Hwf Hr) as [Hc _].
+    destruct (c_fix_anchor c); [destruct (range_covered _ _ _); [|discriminate]|];
+      inv_some H; cbn; split; [discriminate|intros _; exact Hc|discriminate|intros _; exact Hc].
+  - inv_some H; cbn. split; [reflexivity|discriminate].
+Qed.
+
+Lemma pub_offs_map_FPub : forall l, (forall q, In q l -> po q <> 0) -> pub_offs (map FPub l) = map po l.
+Proof.
+  induction l as [|a l IH]; intros H; [reflexivity|]. cbn [map pub_offs].
+  destruct (po a =? 0) eqn:E; [apply N.eqb_eq in E; exfalso; apply (H a); [left; reflexivity|exact E]|].
+  f_equal. apply IH. intros q Hq. apply H. right. exact Hq.
+Qed.
+
+Lemma sorted_cons_nonzero : forall p0 l, StronglySorted N.lt (p0 :: map po l) -> forall q, In q l -> po q <> 0.
+Proof.
+  intros p0 l H q Hq. inversion H as [|? ? _ HF]; subst. rewrite Forall_forall in HF.
+  specialize (HF (po q) (in_map po _ _ Hq)). lia.
+Qed.
+
+(* pend is empty whenever the PubSubSync entry exists *)
+Lemma pend_none_entry : forall c s, SInv c s -> ps_entry s = true -> pend s = None.
+Proof.
+  intros c s I He. unfold pend. destruct (dl s) as [|p lag ph|] eqn:Ed; try reflexivity.
+  destruct (i_entry_dl c s I He p lag ph Ed) as [->|[-> E0]]; [reflexivity|].
+  rewrite E0. reflexivity.
+Qed.
+
+Lemma recvinv_of_res : forall s glog r pubs b,
+  res_ok glog r ->
+  StronglySorted N.lt (r_off r :: pubs) -> pubs = map po (r_pubs r) ->
+  recv (log s) = Some (r_off r, pubs) -> bound s = r_pos r -> pend s = None -> g_log s = glog ->
+  b = true -> RecvInv s.
+Proof.
+  intros s glog r pubs b (A & B & C & D) HS -> Hr Hb Hp <- _ p0 r' Hr'.
+  rewrite Hr in Hr'. inv_some Hr'. rewrite Hb, Hp.
+  split; [exact A|]. split; [|split; [exact C|split; [|split]]].
+  - apply Forall_forall. intros o Ho. apply in_map_iff in Ho. destruct Ho as [q [<- Hq]].
+    apply (B q Hq).
+  - intros o Ho. apply in_map_iff in Ho. destruct Ho as [q [<- Hq]]. apply (B q Hq).
+  - intros o H1 H2. destruct (D o H1 H2); auto.
+  - intros o Ho. discriminate.
+Qed.
